@@ -27,6 +27,9 @@ class PolyplyParser(ITPDirector):
     def __init__(self, force_field):
         super().__init__(force_field)
         self.citations = set()
+        # definitions read from earlier files are left as they are
+        self._old_blocks = {id(block) for block in force_field.blocks.values()}
+        self._n_old_links = len(force_field.links)
 
     @SectionLineParser.section_parser('moleculetype', 'citation')
     def _parse_citation(self, line, lineno=0):
@@ -66,7 +69,7 @@ class PolyplyParser(ITPDirector):
         adds version tags for all interactions within a
         :class:`vermouth.molecule.Link` that are applied to the same atoms.
         """
-        for link in self.force_field.links:
+        for link in self.force_field.links[self._n_old_links:]:
             for key in link.interactions:
                 terms = link.interactions[key]
                 count_terms = Counter(tuple(term.atoms) for term in terms)
@@ -140,11 +143,13 @@ class PolyplyParser(ITPDirector):
 
     def _make_edges(self):
        for block in self.force_field.blocks.values():
+           if id(block) in self._old_blocks:
+               continue
            inter_types = list(block.interactions.keys())
            for inter_type in inter_types:
                block.make_edges_from_interaction_type(type_=inter_type)
 
-       for link in self.force_field.links:
+       for link in self.force_field.links[self._n_old_links:]:
            inter_types = list(link.interactions.keys())
            for inter_type in inter_types:
                link.make_edges_from_interaction_type(type_=inter_type)
@@ -166,6 +171,8 @@ class PolyplyParser(ITPDirector):
         self.section = None
 
         for block in self.force_field.blocks.values():
+            if id(block) in self._old_blocks:
+                continue
             block.citations.update(self.citations)
             if len(block.nodes) > 0:
                 n_atoms = len(block.nodes)
